@@ -530,6 +530,9 @@ func runC17(c *engine.Ctx) {
 	// ---- R10 channel typestate (shared with C16.R3): the dispatcher's done channel is closed in one place; a second
 	// close site panics the process when a decode error and a failed write meet ----
 	c16ChannelsPrefixed(c, engine.AnalyzeLocks(p), "R10")
+
+	// ---- R11 a read error of any kind ends the read loop (shared with C14.R6) ----
+	checkReadLoopEnds(c, "R11")
 }
 
 // checkCodecDependency re-derives the facts the quick tier trusts by pin, from the dependency's own source.
